@@ -22,7 +22,9 @@ def enum_plans(tier):
     return [dict(cfg="B", depth=7 if th else 6, maxtime=7 if th else 6, alpha=["ceaok"], maxconn=2),
             dict(cfg="B", depth=5, maxtime=3, alpha=["cerout", "ceaok", "dwr"], maxconn=1),   # a CER where the CEA is expected, then traffic
             dict(cfg="B", depth=5, maxtime=2, alpha=["ceaok", "send1", "sendf"], maxconn=2),       # routing before / after the exchange
-            dict(cfg="A", depth=6 if th else 5, maxtime=5, alpha=["cerok"], maxconn=1)]
+            dict(cfg="A", depth=6 if th else 5, maxtime=5, alpha=["cerok"], maxconn=1),
+            # an application registered while the node runs: capabilities exchanges before and after offer / share its id or not
+            dict(cfg="LATE", depth=6 if th else 5, maxtime=1, alpha=["cerok", "cer2", "addapp"], maxconn=3)]
 
 
 def run(tier, seed):
